@@ -137,6 +137,7 @@ def run_property(prop, tier="quick", root="/repo/verde", overlay=None, write=Tru
             _common.use_after_clobber(ctx)
             _common.inherited_dtype_stores(ctx)
             _common.late_binding_closures(ctx)
+            _common.set_iteration_order(ctx)
     except UndecidedFunction as e:
         err = "ANALYSIS-UNDECIDED property=%s unsupported construct in %s" % (prop, e)
     except AnalysisError as e:
